@@ -97,7 +97,7 @@ func (r *RNG) Fill(b []byte) {
 func (r *RNG) U32Edge() uint32 {
 	switch r.Intn(8) {
 	case 0:
-		return [...]uint32{0, 1, 0xffff, 0x10000, 0x10001, 0xfffffffe, 0xffffffff, 0x7fffffff, 0x80000000, 0xff, 0x100}[r.Intn(11)]
+		return [...]uint32{0, 1, 0xffff, 0x10000, 0x10001, 0xfffffffe, 0xffffffff, 0x7fffffff, 0x80000000, 0xff, 0x100, 0x101, 0xff00, 0x00ffffff, 0x01000000, 0x00010100, 0xfffe}[r.Intn(17)]
 	case 1:
 		return uint32(r.Intn(1 << 16))
 	default:
